@@ -44,6 +44,8 @@ CONSTANTS
     DevSkipSeenValidation,  \* TRUE: self-test mutation -- pre-validation is skipped for blocks whose state is already stored
     DevCheckpointPayoutUnbound, \* TRUE: named deviation -- the miner payout VALUE of a checkpoint block is bound by nothing
     DevPayoutCountUnchecked,    \* TRUE: self-test mutation -- the miner payout COUNT of a checkpoint block is not checked
+    ZHangup,    \* TRUE: a Byzantine peer may hang up right after delivering its data, before the victim's verdict
+    DevBanOnlyIfConnected,    \* TRUE: self-test mutation -- Syncer.ban returns early for a peer that is already disconnected
     DevBanLastBatchPeer,      \* TRUE: named deviation -- a failed reorg bans the peer of the batch being added, whoever served the invalid block
     DevSkipKnownBelowTip,     \* TRUE: self-test mutation -- AddBlocks skips ANY re-delivered block with a stored state at or below the tip height
     DevOutlineAttachByHeight, \* TRUE: self-test mutation -- a relayed outline 'attaches' if its height is tip height + 1
@@ -134,6 +136,13 @@ Resync(l, n, p) == IF l[<<n, p>>] = "synced" THEN [l EXCEPT ![<<n, p>>] = "unsyn
 \* Syncer.ban (syncer.go:351-384): report to the peer store, close the connection
 BanUpd(n, p) ==
     /\ banned' = banned \cup {<<n, p>>}
+    /\ link' = DropLink(link, n, p)
+
+\* the same when the peer may have hung up between delivering its data and the verdict: the ban is owed for
+\* the MISBEHAVIOUR, not for the connection (the mutation skips PeerStore.Ban for a peer that is gone)
+Hangs == IF ZHangup THEN BOOLEAN ELSE {FALSE}
+BanUpdH(n, p, hung) ==
+    /\ banned' = IF DevBanOnlyIfConnected /\ hung THEN banned ELSE banned \cup {<<n, p>>}
     /\ link' = DropLink(link, n, p)
 
 \* ids n offers to its peers in the current iteration, chain/manager.go:160-184 + syncer.go:811-836:
@@ -277,7 +286,7 @@ Culprit(n, w, g, last) ==
     LET bad == {q \in g : q[1] \in Above(T, last, AncSet(T, tip[n]))}
     IN IF DevBanLastBatchPeer \/ bad = {} THEN w ELSE (CHOOSE q \in bad : TRUE)[2]
 
-ApplyBatch(n, w, bs, void, tw) ==
+ApplyBatch(n, w, bs, void, tw, hung) ==
     LET validated == T.h[T.par[bs[1]]] >= ReqH
         \* AddValidatedV2Blocks stores the (pre-validated) bodies it is given
         g1 == IF validated THEN {q \in garb[n] : q[1] \notin Range(bs)} ELSE GarbAfter(n, w, bs, tw)
@@ -286,7 +295,7 @@ ApplyBatch(n, w, bs, void, tw) ==
     \* failed full validation and were rolled back (chain/manager.go:276-278): "stored" is not "validated"
     IF validated /\ ~DevNoPreValidation /\ ~void /\ \E i \in DOMAIN bs : T.cls[bs[i]] # "ok" /\ (DevSkipSeenValidation => bs[i] \notin known[n])
       THEN \* consensus.ValidateBlock against the checkpoint-derived state fails: ban, batch discarded
-           /\ BanUpd(n, w)
+           /\ BanUpdH(n, w, hung)
            /\ misb' = IF w \in Z THEN misb \cup {<<n, w>>} ELSE misb
            /\ UNCHANGED <<known, tip, sync, garb>>
            /\ act' = Lbl([op |-> "Fetch", n |-> n, w |-> w, res |-> "invalid"])
@@ -296,12 +305,13 @@ ApplyBatch(n, w, bs, void, tw) ==
            /\ tip' = [tip EXCEPT ![n] = r.tip]
            /\ garb' = [garb EXCEPT ![n] = g1]
            /\ IF r.err
-                THEN /\ BanUpd(n, who)
+                THEN /\ BanUpdH(n, who, hung /\ who = w)
                      /\ misb' = IF who \in Z THEN misb \cup {<<n, who>>} ELSE misb
                      /\ sync' = [sync EXCEPT ![n] = NoSync]
                      /\ act' = Lbl([op |-> "Fetch", n |-> n, w |-> w, res |-> "rejected"])
                 ELSE /\ sync' = [sync EXCEPT ![n].nxt = @ + 1]
-                     /\ UNCHANGED <<link, banned, misb>>
+                     /\ link' = IF hung THEN DropLink(link, n, w) ELSE link
+                     /\ UNCHANGED <<banned, misb>>
                      /\ act' = Lbl([op |-> "Fetch", n |-> n, w |-> w, res |-> (IF tw = {} THEN "ok" ELSE "twin")])
 
 FetchHonest(n, w) ==
@@ -310,7 +320,7 @@ FetchHonest(n, w) ==
     /\ sync[n].nxt < NBatches(n)
     /\ link[<<n, w>>] = "unsynced"
     /\ CanServe(w, BatchOf(n))
-    /\ ApplyBatch(n, w, BatchOf(n), FALSE, {})
+    /\ ApplyBatch(n, w, BatchOf(n), FALSE, {}, FALSE)
     /\ UNCHANGED <<round, seen, htip, goal, dead>>
 
 \* a Byzantine worker may serve the exact blocks (whatever their validity); every other answer
@@ -322,8 +332,8 @@ FetchByz(n, z) ==
     /\ sync[n].nxt < NBatches(n)
     /\ link[<<n, z>>] = "unsynced"
     /\ Fetchable(BatchOf(n))
-    /\ \E tw \in {{}} \cup {{x} : x \in {y \in Range(BatchOf(n)) : T.cls[y] = "ok" /\ ZTwins}} :
-          ApplyBatch(n, z, BatchOf(n), FALSE, tw)
+    /\ \E tw \in {{}} \cup {{x} : x \in {y \in Range(BatchOf(n)) : T.cls[y] = "ok" /\ ZTwins}}, hung \in Hangs :
+          ApplyBatch(n, z, BatchOf(n), FALSE, tw, hung)
     /\ UNCHANGED <<round, seen, htip, goal, dead>>
 
 \* Corruptions of the SendCheckpoint answer (state, block) for the base of a batch on the pre-validated
@@ -355,7 +365,7 @@ FetchByzCkpt(n, z, c) ==
               /\ act' = Lbl([op |-> "FetchCkpt", n |-> n, w |-> z, c |-> c, res |-> "panic"])
               /\ UNCHANGED <<known, tip, link, round, seen, htip, sync, banned, misb, goal, garb>>
        ELSE IF (c = "payouts-extra" /\ DevPayoutCountUnchecked) \/ (c = "payout-value" /\ DevCheckpointPayoutUnbound)
-         THEN /\ ApplyBatch(n, z, BatchOf(n), TRUE, {})
+         THEN /\ ApplyBatch(n, z, BatchOf(n), TRUE, {}, FALSE)
               /\ UNCHANGED <<round, seen, htip, goal, dead>>
        ELSE /\ act' = Lbl([op |-> "FetchCkpt", n |-> n, w |-> z, c |-> c, res |-> "rejected"])
             /\ UNCHANGED vars
@@ -424,6 +434,15 @@ Announce(a, b, kind) ==
                     /\ tip' = [tip EXCEPT ![b] = r.tip]
                     /\ IF r.err THEN BanUpd(b, a) ELSE UNCHANGED <<link, banned>>
 
+\* a Byzantine peer hangs up whenever it likes
+Disconnect(z, n) ==
+    /\ z \in Z /\ n \in H
+    /\ ZHangup
+    /\ link[<<n, z>>] # "off"
+    /\ link' = DropLink(link, n, z)
+    /\ act' = Lbl([op |-> "Disconnect", z |-> z, n |-> n])
+    /\ UNCHANGED <<known, tip, round, seen, htip, sync, banned, misb, goal, dead, garb>>
+
 \* an honest node mines the next block on its tip (the second phase of the equal-height scenarios)
 Mine(n, x) ==
     /\ x \in Mineable
@@ -441,14 +460,15 @@ Mine(n, x) ==
 \*   resync  unknown parent, non-attaching block, unknown basis, failed SendTransactions
 \*   none    valid attaching header, invalid transaction set, malformed frame
 \*   block   an outline that attaches to our tip: completed and submitted
-ZRelay(z, n, eff, x) ==
+ZRelay(z, n, eff, x) == \E hung \in Hangs :
     /\ z \in Z /\ n \in H
     /\ link[<<n, z>>] # "off"
     /\ UNCHANGED <<round, seen, htip, sync, goal, dead, garb>>
     /\ act' = Lbl([op |-> "ZRelay", z |-> z, n |-> n, eff |-> eff, x |-> x])
     /\ eff # "block" => x = G
+    /\ (hung => eff # "resync")
     /\ CASE eff = "ban" ->
-              /\ BanUpd(n, z)
+              /\ BanUpdH(n, z, hung)
               /\ misb' = misb \cup {<<n, z>>}
               /\ UNCHANGED <<known, tip>>
          [] eff = "resync" ->
@@ -461,9 +481,10 @@ ZRelay(z, n, eff, x) ==
                    /\ known' = [known EXCEPT ![n] = r.known]
                    /\ tip' = [tip EXCEPT ![n] = r.tip]
                    /\ IF r.err
-                        THEN /\ BanUpd(n, z)
+                        THEN /\ BanUpdH(n, z, hung)
                              /\ misb' = misb \cup {<<n, z>>}
-                        ELSE UNCHANGED <<link, banned, misb>>
+                        ELSE /\ link' = IF hung THEN DropLink(link, n, z) ELSE link
+                             /\ UNCHANGED <<banned, misb>>
          [] OTHER -> FALSE
 
 -----------------------------------------------------------------------------
@@ -477,6 +498,7 @@ Next ==
     \/ \E n \in H, z \in Z, c \in CkptCorruptions : FetchByzCkpt(n, z, c)
     \/ \E a, b \in H, kind \in {"hdr", "outline"} : Announce(a, b, kind)
     \/ \E z \in Z, n \in H, eff \in {"ban", "resync", "block"}, x \in Blocks : ZRelay(z, n, eff, x)
+    \/ \E z \in Z, n \in H : Disconnect(z, n)
 
 \* weak fairness of every honest action (timeouts make the victim's side of an exchange with a
 \* Byzantine peer fair as well); nothing is assumed about Byzantine nodes
